@@ -696,7 +696,10 @@ char *qstr_comma_number(int number) {
         return NULL;
 
     char buf[10 + 1], *bufp;
-    snprintf(buf, sizeof(buf), "%d", abs(number));
+    // the magnitude of INT_MIN is not an int
+    unsigned int absnum = (number < 0) ? 0u - (unsigned int) number
+                                       : (unsigned int) number;
+    snprintf(buf, sizeof(buf), "%u", absnum);
 
     if (number < 0)
         *strp++ = '-';
